@@ -1,6 +1,7 @@
 package decoder
 
 import (
+	"fmt"
 	"sync"
 	"unsafe"
 
@@ -56,153 +57,174 @@ func skipWhiteSpace(buf []byte, cursor int64) int64 {
 	return cursor
 }
 
-func skipObject(buf []byte, cursor, depth int64) (int64, error) {
-	braceCount := 1
+// The skip functions pass over a value the destination has no use for (unknown members, surplus
+// array elements, repeated members, the text handed to an Unmarshaler). They accept exactly what
+// the decoders accept: the value has to be well-formed JSON.
+
+// skipString passes over a string literal; cursor is at the opening quote.
+func skipString(buf []byte, cursor int64) (int64, error) {
 	for {
-		switch buf[cursor] {
-		case '{':
-			braceCount++
-			depth++
-			if depth > maxDecodeNestingDepth {
-				return 0, errors.ErrExceededMaxDepth(buf[cursor], cursor)
-			}
-		case '}':
-			depth--
-			braceCount--
-			if braceCount == 0 {
-				return cursor + 1, nil
-			}
-		case '[':
-			depth++
-			if depth > maxDecodeNestingDepth {
-				return 0, errors.ErrExceededMaxDepth(buf[cursor], cursor)
-			}
-		case ']':
-			depth--
+		cursor++
+		switch c := buf[cursor]; c {
 		case '"':
-			for {
-				cursor++
-				switch buf[cursor] {
-				case '\\':
+			return cursor + 1, nil
+		case '\\':
+			cursor++
+			switch e := buf[cursor]; e {
+			case '"', '\\', '/', 'b', 'f', 'n', 'r', 't':
+			case 'u':
+				for i := 0; i < 4; i++ {
 					cursor++
-					if buf[cursor] == nul {
-						return 0, errors.ErrUnexpectedEndOfJSON("string of object", cursor)
+					h := buf[cursor]
+					if hexToInt[h] == 0 && h != '0' {
+						if h == nul {
+							return 0, errors.ErrUnexpectedEndOfJSON("string", cursor)
+						}
+						return 0, errors.ErrSyntax(fmt.Sprintf("json: invalid character %c in \\u hexadecimal character escape", h), cursor)
 					}
-				case '"':
-					goto SWITCH_OUT
-				case nul:
-					return 0, errors.ErrUnexpectedEndOfJSON("string of object", cursor)
 				}
+			case nul:
+				return 0, errors.ErrUnexpectedEndOfJSON("string", cursor)
+			default:
+				return 0, errors.ErrSyntax(fmt.Sprintf("invalid character %q in string escape code", e), cursor)
 			}
 		case nul:
-			return 0, errors.ErrUnexpectedEndOfJSON("object of object", cursor)
+			return 0, errors.ErrUnexpectedEndOfJSON("string", cursor)
+		default:
+			if c < 0x20 {
+				return 0, errors.ErrControlCharInString(c, cursor)
+			}
 		}
-	SWITCH_OUT:
-		cursor++
 	}
 }
 
-func skipArray(buf []byte, cursor, depth int64) (int64, error) {
-	bracketCount := 1
+// skipMember passes over `"key" : value`; cursor is at or before the key.
+func skipMember(buf []byte, cursor, depth int64) (int64, error) {
+	cursor = skipWhiteSpace(buf, cursor)
+	switch buf[cursor] {
+	case '"':
+	case nul:
+		return 0, errors.ErrUnexpectedEndOfJSON("object", cursor)
+	default:
+		return 0, errors.ErrExpected("string for object key", cursor)
+	}
+	cursor, err := skipString(buf, cursor)
+	if err != nil {
+		return 0, err
+	}
+	cursor = skipWhiteSpace(buf, cursor)
+	if buf[cursor] != ':' {
+		return 0, errors.ErrExpected("colon after object key", cursor)
+	}
+	return skipValue(buf, cursor+1, depth)
+}
+
+// skipObjectRest passes over the rest of an object; cursor is behind a member's value.
+func skipObjectRest(buf []byte, cursor, depth int64) (int64, error) {
 	for {
+		cursor = skipWhiteSpace(buf, cursor)
 		switch buf[cursor] {
-		case '[':
-			bracketCount++
-			depth++
-			if depth > maxDecodeNestingDepth {
-				return 0, errors.ErrExceededMaxDepth(buf[cursor], cursor)
-			}
-		case ']':
-			bracketCount--
-			depth--
-			if bracketCount == 0 {
-				return cursor + 1, nil
-			}
-		case '{':
-			depth++
-			if depth > maxDecodeNestingDepth {
-				return 0, errors.ErrExceededMaxDepth(buf[cursor], cursor)
-			}
 		case '}':
-			depth--
-		case '"':
-			for {
-				cursor++
-				switch buf[cursor] {
-				case '\\':
-					cursor++
-					if buf[cursor] == nul {
-						return 0, errors.ErrUnexpectedEndOfJSON("string of object", cursor)
-					}
-				case '"':
-					goto SWITCH_OUT
-				case nul:
-					return 0, errors.ErrUnexpectedEndOfJSON("string of object", cursor)
-				}
+			return cursor + 1, nil
+		case ',':
+			c, err := skipMember(buf, cursor+1, depth)
+			if err != nil {
+				return 0, err
 			}
+			cursor = c
 		case nul:
-			return 0, errors.ErrUnexpectedEndOfJSON("array of object", cursor)
+			return 0, errors.ErrUnexpectedEndOfJSON("object", cursor)
+		default:
+			return 0, errors.ErrExpected("comma after object element", cursor)
 		}
-	SWITCH_OUT:
-		cursor++
+	}
+}
+
+// skipObject passes over an object; cursor is behind the opening brace, depth counts that brace.
+func skipObject(buf []byte, cursor, depth int64) (int64, error) {
+	if depth > maxDecodeNestingDepth {
+		return 0, errors.ErrExceededMaxDepth('{', cursor-1)
+	}
+	cursor = skipWhiteSpace(buf, cursor)
+	if buf[cursor] == '}' {
+		return cursor + 1, nil
+	}
+	cursor, err := skipMember(buf, cursor, depth)
+	if err != nil {
+		return 0, err
+	}
+	return skipObjectRest(buf, cursor, depth)
+}
+
+// skipArray passes over an array; cursor is behind the opening bracket, depth counts that bracket.
+func skipArray(buf []byte, cursor, depth int64) (int64, error) {
+	if depth > maxDecodeNestingDepth {
+		return 0, errors.ErrExceededMaxDepth('[', cursor-1)
+	}
+	cursor = skipWhiteSpace(buf, cursor)
+	if buf[cursor] == ']' {
+		return cursor + 1, nil
+	}
+	for {
+		c, err := skipValue(buf, cursor, depth)
+		if err != nil {
+			return 0, err
+		}
+		cursor = skipWhiteSpace(buf, c)
+		switch buf[cursor] {
+		case ']':
+			return cursor + 1, nil
+		case ',':
+			cursor++
+		case nul:
+			return 0, errors.ErrUnexpectedEndOfJSON("array", cursor)
+		default:
+			return 0, errors.ErrExpected("comma after array element", cursor)
+		}
 	}
 }
 
 func skipValue(buf []byte, cursor, depth int64) (int64, error) {
-	for {
-		switch buf[cursor] {
-		case ' ', '\t', '\n', '\r':
+	cursor = skipWhiteSpace(buf, cursor)
+	switch buf[cursor] {
+	case '{':
+		return skipObject(buf, cursor+1, depth+1)
+	case '[':
+		return skipArray(buf, cursor+1, depth+1)
+	case '"':
+		return skipString(buf, cursor)
+	case '-', '0', '1', '2', '3', '4', '5', '6', '7', '8', '9':
+		start := cursor
+		cursor++
+		for floatTable[buf[cursor]] {
 			cursor++
-			continue
-		case '{':
-			return skipObject(buf, cursor+1, depth+1)
-		case '[':
-			return skipArray(buf, cursor+1, depth+1)
-		case '"':
-			for {
-				cursor++
-				switch buf[cursor] {
-				case '\\':
-					cursor++
-					if buf[cursor] == nul {
-						return 0, errors.ErrUnexpectedEndOfJSON("string of object", cursor)
-					}
-				case '"':
-					return cursor + 1, nil
-				case nul:
-					return 0, errors.ErrUnexpectedEndOfJSON("string of object", cursor)
-				}
-			}
-		case '-', '0', '1', '2', '3', '4', '5', '6', '7', '8', '9':
-			for {
-				cursor++
-				if floatTable[buf[cursor]] {
-					continue
-				}
-				break
-			}
-			return cursor, nil
-		case 't':
-			if err := validateTrue(buf, cursor); err != nil {
-				return 0, err
-			}
-			cursor += 4
-			return cursor, nil
-		case 'f':
-			if err := validateFalse(buf, cursor); err != nil {
-				return 0, err
-			}
-			cursor += 5
-			return cursor, nil
-		case 'n':
-			if err := validateNull(buf, cursor); err != nil {
-				return 0, err
-			}
-			cursor += 4
-			return cursor, nil
-		default:
-			return cursor, errors.ErrUnexpectedEndOfJSON("null", cursor)
 		}
+		if !isValidNumber(buf[start:cursor]) {
+			return 0, errInvalidNumber(buf[start:cursor], start)
+		}
+		return cursor, nil
+	case 't':
+		if err := validateTrue(buf, cursor); err != nil {
+			return 0, err
+		}
+		cursor += 4
+		return cursor, nil
+	case 'f':
+		if err := validateFalse(buf, cursor); err != nil {
+			return 0, err
+		}
+		cursor += 5
+		return cursor, nil
+	case 'n':
+		if err := validateNull(buf, cursor); err != nil {
+			return 0, err
+		}
+		cursor += 4
+		return cursor, nil
+	case nul:
+		return cursor, errors.ErrUnexpectedEndOfJSON("value", cursor)
+	default:
+		return cursor, errors.ErrInvalidBeginningOfValue(buf[cursor], cursor)
 	}
 }
 
